@@ -209,6 +209,13 @@ def scenarios(ctx):
     for name, end in (("coulomb_atoms/cell_veto", 2.6), ("dipoles/dipole_motion", 5.1), ("coulomb_atoms/power_bounded", 6.1),
                       ("dipoles/dipole_factors_ratio", 5.1)):
         sh.append((name, end, 0.25, {"FixedIntervalSamplingEventHandler": {"sampling_interval": 0.25}}))
+    # pools of deep-copied event handlers (number_event_handlers > 1) around the C merged-image potential: a resumed process
+    # rebuilds every potential through its constructor, the original run works with copies; thousands of thinning decisions
+    pooled = {"RandomInputHandler": {"number_of_root_nodes": 4}, "Coulomb": {"number_event_handlers": 5}}
+    sh.append(("coulomb_atoms/power_bounded", ctx.pick(900.0, 4000.0), ctx.pick(271.3, 873.1), pooled))
+    sh.append(("coulomb_atoms/power_bounded", ctx.pick(600.0, 3000.0), ctx.pick(171.7, 611.3),
+               dict(pooled, SingleProcessMediator={"scheduler": "list_scheduler"},
+                    RandomInputHandler={"number_of_root_nodes": 5})))
     for name, end, di, ov in sh:
         out.append({"kind": "shipped", "name": name, "end": end, "dump_interval": di, **({"overrides": ov} if ov else {})})
     # generated: several nearby targets (iteration order of containers matters), both schedulers
